@@ -31,10 +31,11 @@ use vm_api::VM;
 ///  3 SELFDESTRUCT(beneficiary = calldata[1..33])
 ///  4 CREATE with endowment = selfbalance+1 (fails the endowment check) -> returns word
 ///  5 CREATE2 twice with the same salt/init in one message -> returns second address word
+///  7 CALL contract calldata[1..33] with calldata[33..], then CREATE(init = calldata[66..])
 pub fn factory_runtime() -> Vec<u8> {
     let mut a = Asm::new();
     a.op(op::PUSH0).op(op::CALLDATALOAD).push(248).op(op::SHR);
-    for (m, l) in [(1u64, "create"), (2, "create2"), (3, "sd"), (4, "poor"), (5, "twice")] {
+    for (m, l) in [(1u64, "create"), (2, "create2"), (3, "sd"), (4, "poor"), (5, "twice"), (7, "reenter")] {
         a.op(op::DUP1).push(m).op(op::EQ).push_label(l).op(op::JUMPI);
     }
     a.op(op::STOP);
@@ -68,6 +69,15 @@ pub fn factory_runtime() -> Vec<u8> {
     a.push(1).op(op::CALLDATALOAD);
     a.push(33).op(op::CALLDATASIZE).op(op::SUB);
     a.op(op::PUSH0).op(op::PUSH0).op(op::CREATE2);
+    ret_word(&mut a);
+    // 7: CALL the contract named in calldata[1..33] with calldata[33..] (e.g. this very factory, told
+    //    to CREATE), then CREATE here as well: exercises nonce handling across re-entrancy
+    a.label("reenter");
+    copy_init(&mut a); // memory[0..size] = inner calldata, [size]
+    a.op(op::PUSH0).op(op::PUSH0).op(op::DUP1 + 2).op(op::PUSH0).op(op::PUSH0);
+    a.push(1).op(op::CALLDATALOAD).op(op::GAS).op(op::CALL).op(op::POP); // [size]
+    a.push(33).op(op::SWAP1).op(op::SUB); // size - 33 : the init code inside the inner calldata
+    a.push(33).op(op::PUSH0).op(op::CREATE);
     ret_word(&mut a);
     a.finish()
 }
@@ -400,12 +410,18 @@ pub fn history(index: u64, mut rng: Rng, tier: Tier) -> Outcome {
                 // drive a factory
                 let Some(c) = rng.pick_opt(&contracts).cloned() else { continue };
                 let (name, init) = rng.pick(&inits).clone();
-                let mode = *rng.pick(&[1u8, 1, 2, 2, 2, 4, 5]);
+                let mode = *rng.pick(&[1u8, 1, 2, 2, 2, 4, 5, 7, 7]);
                 let salt: [u8; 32] = if !salts.is_empty() && rng.chance(1, 2) { *rng.pick(&salts) } else { evm::word(rng.below(4)) };
                 if !salts.contains(&salt) {
                     salts.push(salt);
                 }
                 let mut cd = vec![mode];
+                if mode == 7 {
+                    // outer: [7][target address word][inner calldata = [1|2][salt][init]]
+                    let target = if rng.chance(2, 3) { c.eth } else { rng.pick(&contracts).eth };
+                    cd.extend_from_slice(&evm::addr_word(&target));
+                    cd.push(if rng.chance(1, 2) { 1 } else { 2 });
+                }
                 cd.extend_from_slice(&salt);
                 cd.extend_from_slice(&init);
                 let value = if rng.chance(1, 4) { atto(1 + rng.below(1000)) } else { TokenAmount::zero() };
